@@ -32,8 +32,8 @@ BAD_REPLIES = ["OK!", "OK..", "Okay", "O K", "not ok", "OK, but rename x", "The 
 FAULTS = ["no-key", "empty-key", "refused", "400-json", "400-plain", "401-json", "401-plain", "403-json", "404-json", "404-plain", "422-json",
           "200-invalid-json", "200-empty-body", "200-no-choices", "200-null-content", "200-null-content-refusal", "200-null-content-refusal-ok", "200-empty-content",
           "200-no-message", "200-not-object", "truncated", "closed"]
-COND_PIECES = ["must mention", "no \"quotes\"", "back\\slash", "tab\there", "é日本", "\U0001F600", "{json}", "a<b", "100%", "x=y", "semi;", "it's"]
-CONTENT_PIECES = ["alpha", "say \"hi\"", "c:\\path\\file", "tab\there", "naïve café", "日本語", "\U0001F468‍\U0001F469‍\U0001F467", "{\"k\": [1, 2]}",
+COND_PIECES = ["{block}", "{condition}", "{content} {}", "%s %d", "$1 \\1", "must mention", "no \"quotes\"", "back\\slash", "tab\there", "é日本", "\U0001F600", "{json}", "a<b", "100%", "x=y", "semi;", "it's"]
+CONTENT_PIECES = ["{condition}", "{block}", "{} {0}", "alpha", "say \"hi\"", "c:\\path\\file", "tab\there", "naïve café", "日本語", "\U0001F468‍\U0001F469‍\U0001F467", "{\"k\": [1, 2]}",
                   "id: 42", "$x = 'y'", "<b>bold</b>", "a & b", "100%", "line", "\\n literal", "null", "end"]
 PATTERNS = [None, None, None, r"(?P<value>\d+)", r"id: (\w+)", r"^nomatch$", r"(?s)alpha.*end", r"(?s).*", r"(?P<value>\s+\S+\s+)", r"\S+[ \t]+"]
 ERR_JSON = json.dumps({"error": {"message": "scripted failure", "type": "invalid_request_error", "param": None, "code": "bad"}})
